@@ -17,6 +17,8 @@ func Lookup(id string) sim.Property {
 		return C09{}
 	case "C10":
 		return C10{}
+	case "C11":
+		return C11{}
 	case "C08":
 		return C08{}
 	}
